@@ -234,7 +234,7 @@ uri/uripost is replaced by an EMPTY map (`scanAll` starts every pass with `[]`),
 fresh scanner / reset reader / new json.Decoder; readLine / readBlock work on the decoder's own header map, which therefore
 persists across the lines of one pass (`scanUri` threads `common`) -/
 theorem scanWrap_shape :
-    Gen.HttpWire.scanWrap = ["uriDecoder wrap: continue ; def:=recv.file.Seek(lit:0,lit:0) ; if(!=(local,nil)){return nil,local} ; if(&&(!=(recv.config.Passes,lit:0),>=(recv.passNum,recv.config.Passes))){return nil,ErrPassLimit} ; if(==(recv.ammoNum,lit:0)){return nil,ErrNoAmmo} ; recv.Header=composite:http.Header ; recv.line=lit:0 ; recv.passNum++ ; recv.scanner=bufio.NewScanner(recv.file)", "uriDecoder reads: readLine(local,recv.Header)", "uripostDecoder wrap: def:=recv.file.Seek(lit:0,lit:0) ; if(!=(local,nil)){return nil,local} ; if(&&(!=(recv.config.Passes,lit:0),>=(recv.passNum,recv.config.Passes))){return nil,ErrPassLimit} ; if(==(recv.ammoNum,lit:0)){return nil,ErrNoAmmo} ; recv.header=make(http.Header) ; recv.passNum++ ; recv.reader.Reset(recv.file)", "uripostDecoder reads: readBlock(recv.reader,recv.header)", "rawDecoder wrap: continue ; def:=recv.file.Seek(lit:0,lit:0) ; if(!=(local,nil)){return nil,local} ; if(&&(!=(recv.config.Passes,lit:0),>=(recv.passNum,recv.config.Passes))){return nil,ErrPassLimit} ; if(==(recv.ammoNum,lit:0)){return nil,ErrNoAmmo} ; recv.passNum++ ; recv.reader.Reset(recv.file)", "jsonlineDecoder wrap: _,local=recv.file.Seek(lit:0,lit:0) ; if(!=(local,nil)){return nil,local} ; if(!=(local,nil)){return nil,local} ; if(&&(!=(recv.config.Passes,lit:0),>=(recv.passNum,recv.config.Passes))){return nil,ErrPassLimit} ; if(==(recv.ammoNum,lit:0)){return nil,ErrNoAmmo} ; local=recv.scanner.Err() ; recv.decoder=json.NewDecoder(recv.file) ; recv.line=lit:0 ; recv.passNum++"] := rfl
+    Gen.HttpWire.scanWrap = ["uriDecoder wrap: continue ; def:=recv.file.Seek(lit:0,lit:0) ; if(!=(local,nil)){return nil,local} ; if(&&(!=(recv.config.Passes,lit:0),>=(recv.passNum,recv.config.Passes))){return nil,ErrPassLimit} ; if(==(recv.ammoNum,lit:0)){return nil,ErrNoAmmo} ; recv.Header=composite:http.Header ; recv.line=lit:0 ; recv.passNum++ ; recv.scanner=new-reader(recv.file)", "uriDecoder reads: readLine(local,recv.Header)", "uripostDecoder wrap: def:=recv.file.Seek(lit:0,lit:0) ; if(!=(local,nil)){return nil,local} ; if(&&(!=(recv.config.Passes,lit:0),>=(recv.passNum,recv.config.Passes))){return nil,ErrPassLimit} ; if(==(recv.ammoNum,lit:0)){return nil,ErrNoAmmo} ; recv.header=make(http.Header) ; recv.passNum++ ; recv.reader.Reset(recv.file)", "uripostDecoder reads: readBlock(recv.reader,recv.header)", "rawDecoder wrap: continue ; def:=recv.file.Seek(lit:0,lit:0) ; if(!=(local,nil)){return nil,local} ; if(&&(!=(recv.config.Passes,lit:0),>=(recv.passNum,recv.config.Passes))){return nil,ErrPassLimit} ; if(==(recv.ammoNum,lit:0)){return nil,ErrNoAmmo} ; recv.passNum++ ; recv.reader.Reset(recv.file)", "jsonlineDecoder wrap: _,local=recv.file.Seek(lit:0,lit:0) ; if(!=(local,nil)){return nil,local} ; if(!=(local,nil)){return nil,local} ; if(&&(!=(recv.config.Passes,lit:0),>=(recv.passNum,recv.config.Passes))){return nil,ErrPassLimit} ; if(==(recv.ammoNum,lit:0)){return nil,ErrNoAmmo} ; local=recv.scanner.Err() ; recv.decoder=new-reader(recv.file) ; recv.line=lit:0 ; recv.passNum++"] := rfl
 
 /-- the provider: the `uris` option is the file `strings.Join(uris, "\n")`; Acquire builds the request of the ammo it took from
 the sink, lets the middlewares (none by default) see it and hands THAT request to the gun; Release gives the ammo back to
